@@ -5,8 +5,6 @@ simulation vs misfit of fresh simulations at perturbed models.  Oracle:
 second-order convergence of central differences and (double) Richardson
 extrapolation.
 """
-import os
-import time
 import warnings
 import numpy as np
 from vf import common, gen, simgen, refop
@@ -50,7 +48,7 @@ def plan(tier, seed):
     return b
 
 
-def run_case(rec, seed, k, i):
+def run_case(rec, seed, k, i, tmpdirs):
     warnings.simplefilter('ignore')
     r = gen.rng(seed, 'C07', k, i)
     ps = simgen.problem_spec(r)
@@ -61,7 +59,6 @@ def run_case(rec, seed, k, i):
 
     # feature interactions: file-based execution of the base simulation and
     # user-named (dict) frequencies
-    import shutil
     import tempfile
     file_based = bool(r.random() < 0.15)
     named = bool(r.random() < 0.3)
@@ -69,7 +66,6 @@ def run_case(rec, seed, k, i):
                ) if named and len({f'{f_:.2f}' for f_ in ps['frequencies']}
                                   ) == len(ps['frequencies']) else ps
     case['file_based'], case['named_frequencies'] = file_based, psn is not ps
-    tmpdirs = []
     # history: the observations of one source-frequency pair arrive later
     # (written in place into the same survey, followed by clean('computed'));
     # misfit and gradient reported afterwards belong to the full data set
@@ -216,8 +212,6 @@ def run_case(rec, seed, k, i):
                                 for c in ps['receivers']})),
                   ps['noise'], dkind, ps['nan_frac'] > 0, file_based,
                   psn is not ps, staged))
-    for d_ in tmpdirs:
-        shutil.rmtree(d_, ignore_errors=True)
     rec.extra_set('mappings', [ms['mapping']])
     rec.extra_set('source_kinds', [s['kind'] for s in ps['sources']])
     rec.extra_set('receiver_kinds', [f"{c['kind']}:{'rel' if c['relative'] else 'abs'}"
@@ -231,13 +225,9 @@ def run_case(rec, seed, k, i):
 def run_batch(batch):
     rec = common.Rec(max_samples=2)
     for i in range(batch['n']):
+        tmpdirs = []         # file_dir of this case's file-based simulation
         try:
-            run_case(rec, batch['seed'], batch['k'], i)
-            import glob
-            import shutil
-            for d_ in glob.glob('/tmp/vf-c07-*'):
-                if os.path.getmtime(d_) < time.time() - 600:
-                    shutil.rmtree(d_, ignore_errors=True)
+            run_case(rec, batch['seed'], batch['k'], i, tmpdirs)
         except IndexError:
             raise
         except Exception:  # noqa
@@ -245,6 +235,10 @@ def run_batch(batch):
             rec.inconclusive('harness/emg3d exception: ' +
                              traceback.format_exc()[-900:],
                              {'k': batch['k'], 'i': i})
+        finally:
+            import shutil
+            for d_ in tmpdirs:
+                shutil.rmtree(d_, ignore_errors=True)
     return rec.result()
 
 
